@@ -754,6 +754,9 @@ pub fn run(ctx: &Ctx) -> EngineResult {
         if st.horizon_hits > 0 {
             rep.cap(format!("script {:?}: {} executions hit the step horizon", script, st.horizon_hits));
         }
+        if st.retried_timeouts > 0 {
+            rep.assume(&format!("script {:?}: {} executions hit the per-execution wall timeout once and completed when run again", script, st.retried_timeouts));
+        }
         if rep.samples.len() < 4 && script.len() >= 3 {
             if let Some(s) = st.samples.first() {
                 rep.sample(json!({"script": script, "execution": s}));
